@@ -181,7 +181,7 @@ def run(tier: str, only_key: dict | None = None) -> int:
     M3  the generated schemas, the committed files and the live ParameterDicts are the trace; TraceSchema.tla evaluates the
         set equalities and attribute equalities and names the offenders; result-schema fields are probed through the real client."""
     res = Result('C19', tier)
-    r = tlc.run_tlc('Pipeline', 'MC_Pipeline.cfg', workers=1, timeout=900)
+    r = tlc.run_tlc('Pipeline', 'MC_Pipeline.cfg', workers=1, timeout=2400)
     tlc.check_mc(r, 'MC_Pipeline.cfg', ['Instantiate', 'FailInit', 'ReadParameters', 'FailRead', 'SecondPass', 'WriteJson'])
     if r['violated']:
         raise MachineryFailure(f'Pipeline.tla violates {r["violated"]}')
